@@ -434,3 +434,8 @@ PLAN["C08"]["quick"]["tests"].append({"run": "TestC08Extents", "shards": 2, "che
 PLAN["C08"]["thorough"]["tests"].append({"run": "TestC08Extents", "shards": 2, "checks": 60, "timeout": 840, "shrink": "30s"})
 PLAN["C08"]["rule"] += ("; TestC08Extents: the same enumeration over pre-states whose files consist of 1030-1140 separate extents (more than one FIEMAP batch), victim and reopening inspector with "
                         "space reclamation on")
+
+# TestC18's programs grew (statsrace, addlate, loneboot): fewer of them per shard in the quick tier
+for _x in PLAN["C18"]["quick"]["tests"]:
+    if _x["run"] == "TestC18":
+        _x["checks"] = 30
